@@ -20,8 +20,11 @@ import traceback
 from .kernel import canon, digest
 
 VERIF = os.path.dirname(os.path.dirname(os.path.abspath(__file__)))
-REPLAYS = os.path.join(VERIF, 'replays')
-EVIDENCE = os.path.join(VERIF, 'evidence')
+# DST_OUT_DIR redirects evidence / replay output (used only by the mutant
+# and seeded-change drivers, which run checks against scratch copies)
+_OUT = os.environ.get('DST_OUT_DIR') or VERIF
+REPLAYS = os.path.join(_OUT, 'replays')
+EVIDENCE = os.path.join(_OUT, 'evidence')
 KNOWN = os.path.join(VERIF, 'known_findings.json')
 
 
